@@ -255,6 +255,7 @@ class Oracle:
         if c is not None:
             # what the stack had advertised before this segment arrived
             f["rcv_nxt_before"], f["adv_wnd_before"], f["closed_before"] = c.rcv_nxt, c.adv_wnd, (c.rcv_closed or c.peer_fin is not None)
+            f["una_before"], f["max_end_before"], f["fin_sent_before"] = c.una, c.max_end, c.fin_sent
             self.peer_to_conn(c, f)
             self.on_emit(c, outs, bad, f)
             return
@@ -466,6 +467,12 @@ class Oracle:
             if off == f.get("rcv_nxt_before") and f["len"] <= f.get("adv_wnd_before", 0) and not f.get("closed_before"):
                 if c.rcv_nxt < off + f["len"]:
                     bad.append("c04.in-window-data-not-accepted")
+        # C02: the peer (re)opens its window while data or the FIN waits and nothing is in flight: it must go out now
+        if "A" in f["fl"] and "R" not in f["fl"] and "S" not in f["fl"] and (f["wnd"] << c.scale) > 0 and f.get("una_before") is not None:
+            waiting = len(c.W) > f["max_end_before"] or (c.shutdown and not f["fin_sent_before"])
+            nothing_in_flight = f["max_end_before"] <= max(f["una_before"], sdiff(f["ack"], (c.iss + 1) % M) if sdiff(f["ack"], (c.iss + 1) % M) <= f["max_end_before"] else f["una_before"])
+            if waiting and nothing_in_flight and not any(s["len"] > 0 or "F" in s["fl"] for s in outs):
+                bad.append("c02.window-open-but-queued-data-not-sent")
         # C05: the third duplicate ACK triggers a retransmission of the earliest unacknowledged segment
         if f.get("isdup") and c.dup == 3 and not c.loss_episode:
             c.loss_episode = True
